@@ -454,14 +454,20 @@ def arb_params(draw, kind, v, R, labels):
     A[0, 1] = shear
     M = R.T @ A
     pts = [v + M @ np.array(q, dtype=float) for q in verts]
-    params = []
-    for q in pts:
-        params += [float(t) for t in q]
-    params += [0.0] * (24 - len(params))
+    # the corners that are used need not be the first ones: unused corners
+    # are zero triplets anywhere among the eight
+    slots = list(range(len(pts)))
+    if len(pts) < 8 and draw(st.integers(0, 2)) == 0:
+        slots = list(draw(st.permutations(list(range(8)))))[:len(pts)]
+        if slots != list(range(len(pts))):
+            labels.append('arb:scattered-corners')
+    params = [0.0] * 24
+    for i, q in enumerate(pts):
+        params[3 * slots[i]:3 * slots[i] + 3] = [float(t) for t in q]
     fac = []
     order = draw(st.permutations(list(range(len(facets)))))
     for o in order:
-        f = list(facets[o])
+        f = [slots[d - 1] + 1 for d in facets[o]]
         rot = draw(st.integers(0, len(f) - 1))
         f = f[rot:] + f[:rot]
         if draw(st.booleans()):
